@@ -19,7 +19,13 @@ static int hazard_mask; /* 1: never put while an iterator is open, 2: never rm a
 #define MAXREC 256
 
 static int nkeys;
-static char *kcopy[MAXK][2];      /* two heap copies (exact size) of every key string */
+static char *kcopy[MAXK][3];      /* two heap copies (exact size) of every key string handed to the map, [2] is the model's own */
+static int kpoison[MAXK][2], kheld[MAXK]; static long n_poisoned;
+/* key storage belongs to the caller: after a replacing put through another pointer, or after a remove, the map must not
+ * look at the old storage again.  The harness scribbles over storage the map has no business with and repairs it
+ * before handing it in again */
+static char *K(int k, int c) { if (kpoison[k][c]) { memcpy(kcopy[k][c], kcopy[k][2], strlen(kcopy[k][2]) + 1); kpoison[k][c] = 0; } return kcopy[k][c]; }
+static void Kpoison(int k, int c) { size_t n = strlen(kcopy[k][2]); if (n == 0 || kheld[k] == c) return; memset(kcopy[k][c], 0x7e, n); kcopy[k][c][0] ^= 0x15; kpoison[k][c] = 1; n_poisoned++; }
 static size_t klen[MAXK];
 
 struct val { int id; int in_map; int freed; };
@@ -58,7 +64,7 @@ static const char *mkey(const char *base)
 static int key_index(const char *k)
 {
 	for (int i = 0; i < nkeys; i++) if (k == kcopy[i][0] || k == kcopy[i][1]) return i;
-	for (int i = 0; i < nkeys; i++) if (strcmp(k, kcopy[i][0]) == 0) return i + 1000; /* right content, foreign pointer */
+	for (int i = 0; i < nkeys; i++) if (strcmp(k, kcopy[i][2]) == 0) return i + 1000; /* right content, foreign pointer */
 	return -1;
 }
 static int val_index(void *v)
@@ -87,7 +93,7 @@ static void on_notify(uint32_t event, char *key, void *oldv, void *newv, void *u
 	}
 }
 
-static int is_prefix(int p, int k) { return klen[p] <= klen[k] && memcmp(kcopy[p][0], kcopy[k][0], klen[p]) == 0; }
+static int is_prefix(int p, int k) { return klen[p] <= klen[k] && memcmp(kcopy[p][2], kcopy[k][2], klen[p]) == 0; }
 
 /* model: which notifications does event e on key k produce? */
 static void expect_event(int e, int k, int oldv, int newv)
@@ -146,8 +152,9 @@ static void compare_notifs(const char *op, int k)
 static void add_key(const char *s, size_t n)
 {
 	if (nkeys >= MAXK || n == 0) return;
-	for (int i = 0; i < nkeys; i++) if (klen[i] == n && memcmp(kcopy[i][0], s, n) == 0) return;
-	for (int c = 0; c < 2; c++) { kcopy[nkeys][c] = malloc(n + 1); memcpy(kcopy[nkeys][c], s, n); kcopy[nkeys][c][n] = 0; }
+	for (int i = 0; i < nkeys; i++) if (klen[i] == n && memcmp(kcopy[i][2], s, n) == 0) return;
+	kpoison[nkeys][0] = kpoison[nkeys][1] = 0; kheld[nkeys] = -1;
+	for (int c = 0; c < 3; c++) { kcopy[nkeys][c] = malloc(n + 1); memcpy(kcopy[nkeys][c], s, n); kcopy[nkeys][c][n] = 0; }
 	klen[nkeys++] = n;
 }
 static int pool_style;
@@ -178,12 +185,12 @@ static void make_pool(vprng_t *r)
 		break;
 	}
 }
-static void free_pool(void) { for (int i = 0; i < nkeys; i++) { free(kcopy[i][0]); free(kcopy[i][1]); } nkeys = 0; }
+static void free_pool(void) { for (int i = 0; i < nkeys; i++) { free(kcopy[i][0]); free(kcopy[i][1]); free(kcopy[i][2]); } nkeys = 0; }
 
-static int cmp_unsigned(int a, int b) { return strcmp(kcopy[a][0], kcopy[b][0]); }
+static int cmp_unsigned(int a, int b) { return strcmp(kcopy[a][2], kcopy[b][2]); }
 static int cmp_signed(int a, int b)
 {
-	const signed char *x = (const signed char *)kcopy[a][0], *y = (const signed char *)kcopy[b][0];
+	const signed char *x = (const signed char *)kcopy[a][2], *y = (const signed char *)kcopy[b][2];
 	for (;; x++, y++) { if (*x != *y) { if (!*x) return -1; if (!*y) return 1; return *x < *y ? -1 : 1; } if (!*x) return 0; }
 }
 
@@ -196,7 +203,7 @@ static void full_iteration(int prefix, const char *why)
 {
 	int seen[MAXK]; memset(seen, 0, sizeof seen);
 	int order[MAXK], no = 0;
-	qb_map_iter_t *it = prefix >= 0 ? qb_map_pref_iter_create(m, kcopy[prefix][0]) : qb_map_iter_create(m);
+	qb_map_iter_t *it = prefix >= 0 ? qb_map_pref_iter_create(m, K(prefix, 0)) : qb_map_iter_create(m);
 	if (!it) { vp_violation(mkey("map:iter-create-failed"), "%s", why); return; }
 	void *v; const char *k; int guard = 0;
 	while ((k = qb_map_iter_next(it, &v)) != NULL && guard++ < 3 * MAXK) {
@@ -228,7 +235,7 @@ static void dictionary_check(const char *why)
 	size_t c = qb_map_count_get(m);
 	if (c != (size_t)model_count) vp_violation(mkey("map:count-mismatch"), "%s: count_get=%zu model=%d", why, c, model_count);
 	for (int i = 0; i < nkeys; i++) {
-		void *v = qb_map_get(m, kcopy[i][vp.cur_case & 1]);
+		void *v = qb_map_get(m, K(i, vp.cur_case & 1));
 		if (val_index(v) != model[i]) { vp_violation(mkey(model[i] < 0 ? "map:get-finds-absent-key" : "map:get-wrong-value"), "%s: get(key#%d)=%d model=%d", why, i, val_index(v), model[i]); break; }
 	}
 }
@@ -290,8 +297,9 @@ static void run_case(long kase)
 			int old = model[k];
 			if (old < 0) expect_event(QB_MAP_NOTIFY_INSERTED, k, -1, v); else expect_event(QB_MAP_NOTIFY_REPLACED, k, old, v);
 			if (nopen) featP = 1;
-			qb_map_put(m, kcopy[k][copy], &vals[v]);
+			qb_map_put(m, K(k, copy), &vals[v]);
 			n_puts++;
+			kheld[k] = copy; if (nopen == 0) Kpoison(k, 1 - copy);   /* whatever it held before, the map now has the new key */
 			vals[v].in_map = 1;
 			if (old < 0) { model_count++; it_note_insert(k); } else vals[old].in_map = 0;
 			model[k] = v; ever_put[k] = 1;
@@ -312,7 +320,8 @@ static void run_case(long kase)
 			}
 			int old = model[k];
 			if (old >= 0) expect_event(QB_MAP_NOTIFY_DELETED, k, old, -1); else { n_absent_rm++; saw |= 1; }
-			int rc = qb_map_rm(m, kcopy[k][vp_u(&r, 2)]);
+			int rc = qb_map_rm(m, K(k, (int)vp_u(&r, 2)));
+			if (rc && nopen == 0) { kheld[k] = -1; Kpoison(k, 0); Kpoison(k, 1); } else if (rc) kheld[k] = -2;   /* -2: a parked iterator may still show the removed entry */
 			if (getenv("VP_TRACE")) fprintf(stderr, "   rm key#%d -> %d (model had %d)\n", k, rc, old);
 			n_rms++;
 			if (judge_now) {
@@ -328,12 +337,12 @@ static void run_case(long kase)
 			TR("R%d:%d ", k, rc);
 		} else if (kind < 68) { /* get / count */
 			if (judge_now) {
-				void *v = qb_map_get(m, kcopy[k][vp_u(&r, 2)]);
+				void *v = qb_map_get(m, K(k, (int)vp_u(&r, 2)));
 				n_gets++;
 				if (val_index(v) != model[k]) vp_violation(mkey(model[k] < 0 ? "map:get-finds-absent-key" : "map:get-wrong-value"), "get(key#%d)=%d model=%d", k, val_index(v), model[k]);
 				size_t c = qb_map_count_get(m);
 				if (c != (size_t)model_count) vp_violation(mkey("map:count-mismatch"), "count_get=%zu model=%d", c, model_count);
-			} else { (void)qb_map_get(m, kcopy[k][0]); (void)qb_map_count_get(m); }
+			} else { (void)qb_map_get(m, K(k, 0)); (void)qb_map_count_get(m); }
 		} else if (kind < 76 && !with_iters) { /* complete iteration / prefix iteration / foreach */
 			int w = (int)vp_u(&r, 4);
 			if (w == 0 && impl == TRIE) { full_iteration(k, "prefix iteration"); n_pref++; saw |= 2; }
@@ -353,10 +362,10 @@ static void run_case(long kase)
 				if (nk >= 0 && impl == TRIE && vp_chance(&r, 1, 2)) ev |= QB_MAP_NOTIFY_RECURSIVE;
 				if (nk < 0) ev |= QB_MAP_NOTIFY_RECURSIVE;  /* documented form of a map-wide notifier (a trie treats it as the "" prefix) */
 				if (nk >= 0 && impl != TRIE && model[nk] < 0) {
-					int rc = qb_map_notify_add(m, kcopy[nk][0], on_notify, ev, &ud_cookie[nN]);
+					int rc = qb_map_notify_add(m, K(nk, 0), on_notify, ev, &ud_cookie[nN]);
 					if (rc == 0) vp_diag("map:per-key-notifier-on-absent-key-accepted", "notify_add on absent key returned 0");
 				} else {
-					int rc = qb_map_notify_add(m, nk < 0 ? NULL : kcopy[nk][0], on_notify, ev, &ud_cookie[nN]);
+					int rc = qb_map_notify_add(m, nk < 0 ? NULL : K(nk, 0), on_notify, ev, &ud_cookie[nN]);
 					if (rc == 0) { N[nN] = (struct notif){ 1, nk, ev, nN }; nN++; saw |= 16; }
 					else vp_violation(mkey("map:notify-add-failed"), "notify_add(key#%d, events=%d) returned %d", nk, ev, rc);
 				}
@@ -364,7 +373,7 @@ static void run_case(long kase)
 			} else if (nN > 0) {
 				int i = (int)vp_u(&r, (uint32_t)nN);
 				if (N[i].active && i != free_notifier) {
-					int rc = qb_map_notify_del_2(m, N[i].key < 0 ? NULL : kcopy[N[i].key][0], on_notify, N[i].events, &ud_cookie[i]);
+					int rc = qb_map_notify_del_2(m, N[i].key < 0 ? NULL : K(N[i].key, 0), on_notify, N[i].events, &ud_cookie[i]);
 					if (rc != 0) vp_violation(mkey("map:notify-del-failed"), "notify_del_2(key#%d, events=%d) returned %d", N[i].key, N[i].events, rc);
 					N[i].active = 0;
 				}
@@ -375,7 +384,7 @@ static void run_case(long kase)
 				int i; for (i = 0; i < MAXIT; i++) if (!IT[i].it) break;
 				memset(&IT[i], 0, sizeof IT[i]);
 				IT[i].prefix = -1;
-				if (impl == TRIE && vp_chance(&r, 1, 4)) { IT[i].prefix = k; IT[i].it = qb_map_pref_iter_create(m, kcopy[k][0]); }
+				if (impl == TRIE && vp_chance(&r, 1, 4)) { IT[i].prefix = k; IT[i].it = qb_map_pref_iter_create(m, K(k, 0)); }
 				else IT[i].it = qb_map_iter_create(m);
 				if (!IT[i].it) { vp_violation(mkey("map:iter-create-failed"), "open iterator"); continue; }
 				for (int q = 0; q < nkeys; q++) IT[i].at_create[q] = IT[i].ever[q] = model[q] >= 0;
@@ -440,6 +449,7 @@ int main(int argc, char **argv)
 	hazard_mask = (int)vp_argl("--forbid", 0);
 	for (long k = vp.case_from; k < vp.case_to; k++) { vp_begin_case(k); run_case(k); }
 	vp_count("ops", n_ops); vp_count("puts", n_puts); vp_count("rms", n_rms); vp_count("rm_of_absent_key", n_absent_rm);
+	vp_count("key_storage_scribbled_over", n_poisoned);
 	vp_count("gets_judged", n_gets); vp_count("full_iterations", n_iters_full); vp_count("prefix_iterations", n_pref);
 	vp_count("foreach_abandoned", n_foreach_abandon); vp_count("notifications_seen", n_notifs); vp_count("free_notifications", n_frees);
 	vp_count("iterators_opened", n_iter_open); vp_count("rm_of_parked_entry", n_rm_parked); vp_count("iterators_abandoned", n_iter_abandoned);
